@@ -1,0 +1,10 @@
+//go:build verif
+
+package ast
+
+// Contracts for the verifier in /verif (comment-only; compiled only with -tags verif).
+
+// The printers of the syntax tree call each other along the tree.
+//@ func (al *ArrayLiteral) String() (result string)
+//@   recursion structural on the syntax tree, whose depth the parser limits (parser.maxDepth)
+//@   panics maybe
